@@ -13,9 +13,9 @@ type Plan struct {
 	MissPm    int            `json:"f6_load_miss_pm,omitempty"`
 	FlushPm   int            `json:"f7_flush_pm,omitempty"`
 	Clients   [][]Call       `json:"clients"`
-	Churn     int            `json:"churn,omitempty"` // C12: extra calls executed before handed-out strings are re-read
+	Churn     int            `json:"churn,omitempty"`        // C12: extra calls executed before handed-out strings are re-read
 	Cold      bool           `json:"cold_process,omitempty"` // run as the first thing of a fresh OS process: every lazily filled package-level table of the library is cold
-	FreshAt   int            `json:"fresh_at,omitempty"` // 1-based index of the call of client 0 whose reference is recomputed in a fresh OS process of its own (0: none)
+	FreshAt   int            `json:"fresh_at,omitempty"`     // 1-based index of the call of client 0 whose reference is recomputed in a fresh OS process of its own (0: none)
 	Cfg       simsync.Config `json:"cfg"`
 }
 
@@ -136,7 +136,7 @@ func genStructCall(r *detsim.Rand, types []int, overrides bool) Call {
 }
 
 func genAnyCall(r *detsim.Rand, types []int) Call {
-	switch r.Weighted([]int{55, 10, 3, 7, 3, 6, 2, 4, 3, 4, 3}) {
+	switch r.Weighted([]int{55, 10, 3, 7, 3, 6, 2, 4, 3, 4, 3, 4}) {
 	case 0:
 		return genStructCall(r, types, true)
 	case 1:
@@ -157,6 +157,8 @@ func genAnyCall(r *detsim.Rand, types []int) Call {
 		return Call{Entry: EGenKV, Val: r.Intn(len(genKV))}
 	case 9:
 		return Call{Entry: ESplit, Val: r.Intn(len(splitInputs))}
+	case 11:
+		return Call{Entry: EVarChain, Val: r.Intn(len(varVals)), Rule: r.Intn(len(varRules)), Fn: r.Intn(NFnSets)}
 	}
 	return Call{Entry: EDump, Type: types[r.Intn(len(types))], Val: r.Intn(12), Shape: r.Intn(3)}
 }
